@@ -344,6 +344,15 @@ Proof.
   intros b0. reflexivity.
 Qed.
 
+Theorem open8_generated_find_is_model mc n hash s k r ic :
+  0 <= n <= 63 -> 0 <= n1_dec mc n (bd _ s (HSFindRefine.home n hash k)) < 2 ^ 64 - 1 ->
+  n1_gen_find mc n hash s k = Ok (r, ic) ->
+  (r <> 0 <-> n1_find mc n (HSFindRefine.home n hash) s k = true) /\ (r <> 0 -> In k (bk _ s ic)).
+Proof.
+  intros Hn HD. apply (HSFindRefine.generated_find_is_table_find n Gen_Open8.GetNextBucketIndex (Z -> Z) (n1_dec mc n) Gen_OpenN1_ops.WasFull hash s k r ic HD).
+  intros b0. reflexivity.
+Qed.
+
 (* non-vacuity: a 4-bucket Open2N2<3> table, constant hash: twelve keys fill it, the thirteenth add fails,
    removals and re-insertions keep everything found *)
 Example table_example :
